@@ -320,6 +320,63 @@ def h264DecodeAll (d : H264Dec) : List Pkt → H264Dec × DecRes (List NALU)
     | (d', .more) => h264DecodeAll d' rest
     | (d', r) => (d', r)
 
+/-! ### the whole life of a stream format: several sub streams (always-available paths)
+
+`streamFormat` (encoder, `rtpTimeOffset`) belongs to the STREAM; every sub stream (offline filler, publisher,
+filler again, next publisher …) runs `initialize` against it and then writes units through it. -/
+
+inductive LifeEv (P : Type) where
+  /-- a new sub stream is initialised (`ssrc seq off` = the random values it would draw) -/
+  | sub (useRTPPackets alwaysAvailable forceRemux : Bool) (ssrc seq off : Nat)
+  | unit (pts : Int) (inRtp : List Pkt) (payload : Option P)
+
+def lifeStep {P : Type} (cfg : Cfg) (remux : P → Option P) (pack : P → List Raw) (s : SF) :
+    LifeEv P → Option SF
+  | .sub a b c ssrc seq off => initSF cfg s a b c ssrc seq off
+  | .unit pts inRtp payload =>
+    match writeUnit cfg remux pack s pts inRtp payload with
+    | .ok (s', _) => some s'
+    | .error _ => some s      -- the unit is dropped before anything changed
+
+def lifeRun {P : Type} (cfg : Cfg) (remux : P → Option P) (pack : P → List Raw) :
+    SF → List (LifeEv P) → Option SF
+  | s, [] => some s
+  | s, e :: rest => (lifeStep cfg remux pack s e).bind fun s' => lifeRun cfg remux pack s' rest
+
+/-- executable spec over the units a reader receives during the whole life of a stream whose packets
+are all generated by the server: one SSRC, consecutive sequence numbers across units and sub streams,
+`timestamp − uint32(unit timestamp)` one constant. -/
+structure LifeSt where
+  ssrc : Nat
+  next : Nat
+  off : Nat
+deriving Repr
+
+/-- one delivered unit: its timestamp and its packets `(seq, ts, payload length)`; `sameTs` = video codec
+(all packets of the unit carry the same timestamp) -/
+def lifeUnit (max : Nat) (sameTs : Bool) (st : Option LifeSt) (pts : Int) (ssrc : Nat)
+    (pkts : List (Nat × Nat × Nat)) : Except String (Option LifeSt) :=
+  match pkts with
+  | [] => .ok st
+  | (seq0, ts0, _) :: _ =>
+    let off := (ts0 + two32 - u32 pts) % two32
+    if pkts.any (fun p => p.2.2 > max) then .error "a generated payload exceeds the configured maximum"
+    else if !(pkts.zipIdx.all fun (p, i) => p.1 == (seq0 + i) % two16) then
+      .error "sequence numbers inside a unit are not consecutive"
+    else if sameTs && pkts.any (fun p => p.2.1 != ts0) then
+      .error "packets of one unit carry different timestamps"
+    else
+      let st' : LifeSt := ⟨ssrc, (seq0 + pkts.length) % two16, off⟩
+      match st with
+      | none => .ok (some st')
+      | some s =>
+        if s.ssrc != ssrc then .error s!"SSRC changed from {s.ssrc} to {ssrc} during the life of the stream"
+        else if s.next != seq0 then
+          .error s!"sequence numbers are not consecutive across units / sub streams (expected {s.next}, got {seq0})"
+        else if s.off != off then
+          .error s!"timestamp - unit timestamp changed from {s.off} to {off}: the per-format offset is not fixed over the life of the stream"
+        else .ok (some st')
+
 /-! ### finding F-C23-av1: length-level model of `rtpav1.Encoder.Encode`, only to DECIDE the class
 
 The AV1 packetiser itself is not modelled (contract only).  This simulation follows its space accounting
